@@ -19,7 +19,7 @@ static std::string sint_sig(const uint8_t *s, size_t len) {
   if (k >= 10 && (desc_has("out-of-bounds-index") || desc_has("global-buffer-overflow"))) return "scalable-integer-parse-reads-table[11]";
   return generic_san_sig("scalable-integer-parse"); }
 static void sint_parse_one(const uint8_t *s, size_t len) {      // arbitrary decoder input in an exactly sized block
-  C.states++; C.transitions++;
+  C.states++; C.transitions++; align_case_begin();
   Ex in(s, len); uint64_t got = 0x5555AAAA5555AAAAull; size_t r;
   { Guard g("scalable.Parse", s, len, (long)len); r = ParseScalableInteger(in.p, len, got);
     if (g.hit()) viol(sint_sig(s, len), show_in(s, len) + " ret=" + std::to_string(r) + " " + Guard::desc()); }
@@ -33,19 +33,22 @@ static void sint_parse_one(const uint8_t *s, size_t len) {      // arbitrary dec
   else if (n == 10) outcome(r ? "scalable.Parse: 10-byte encoding accepted" : "scalable.Parse: 10-byte encoding refused");
   else outcome(r ? "scalable.Parse: >10-byte encoding accepted leniently (ret>10)" : "scalable.Parse: >10-byte encoding refused (ret 0)");
 }
-void sweep_sint() {
+static void sint_body(bool small);
+void sweep_sint() { sint_body(false); }
+void align_sint() { sint_body(true); }
+static void sint_body(bool small) {
   sint_init();
   // value domain: 0, 2^64-1, every value within +-2 of each encoding-length boundary min_n (n=2..10), 2^k-1, 2^k, 2^k+1 for k=0..63
   std::vector<uint64_t> vals; vals.push_back(0); vals.push_back(~0ull);
   for (int n = 2; n <= 10; n++) for (int d = -2; d <= 2; d++) vals.push_back(g_min[n] + (uint64_t)(int64_t)d);
   for (int k = 0; k < 64; k++) for (int d = -1; d <= 1; d++) vals.push_back((1ull << k) + (uint64_t)(int64_t)d);
   for (int d = 0; d <= 2; d++) vals.push_back(~0ull - (uint64_t)d);
-  if (thorough()) for (int n = 1; n <= 10; n++) for (uint64_t d = 0; d < 20000; d++) { vals.push_back(g_min[n] + d); if (n > 1) vals.push_back(g_min[n] - 1 - d); }   // +-20000 around every boundary
+  if (thorough() && !small) for (int n = 1; n <= 10; n++) for (uint64_t d = 0; d < 20000; d++) { vals.push_back(g_min[n] + d); if (n > 1) vals.push_back(g_min[n] - 1 - d); }   // +-20000 around every boundary
   for (uint64_t v : vals) {
     C.states++; uint8_t ref[10]; int n = ref_sint_enc(v, ref);
     char vs[64]; snprintf(vs, sizeof vs, "value=0x%llx(len %d)", (unsigned long long)v, n);
     for (size_t size = 0; size <= 11; size++) {
-      C.transitions++;
+      C.transitions++; align_case_begin();
       { Ex out(size, 0xCC); size_t r; Guard g("scalable.Dump", ref, (size_t)n, (long)size); r = DumpScalableInteger(v, out.p, size);
         if (g.hit()) viol(generic_san_sig("scalable-integer-dump") + (size >= (size_t)n ? "" : "-short-buffer"), std::string(vs) + " buff_size=" + std::to_string(size) + " " + Guard::desc());
         if (size >= (size_t)n) { if (r != (size_t)n || memcmp(out.p, ref, (size_t)n) != 0) viol("scalable-integer-dump-wrong-encoding", std::string(vs) + " buff_size=" + std::to_string(size) + " ret=" + std::to_string(r) + " got=" + hexs(out.p, std::min<size_t>(size, 10)) + " want=" + hexs(ref, (size_t)n));
@@ -61,8 +64,9 @@ void sweep_sint() {
   sample("scalable integer value=0x4080 (first 3-byte value) x buff_size 0..11: dump, parse, truncations");
   // decoder inputs: every byte string of length <= 2
   std::vector<uint8_t> full = alphabet("FULL");
-  for (size_t len = 0; len <= 2; len++) for_all_strings(full, len, 0, 1, sint_parse_one);
-  if (thorough()) for_all_strings(full, 3, 0, 1, sint_parse_one);
+  for (size_t len = 0; len <= (small ? 1 : 2); len++) for_all_strings(full, len, 0, 1, sint_parse_one);
+  if (small) for_all_strings(alphabet("A20"), 2, 0, 1, sint_parse_one);
+  if (thorough() && !small) for_all_strings(full, 3, 0, 1, sint_parse_one);
   // all-continuation strings c^k (k = 1..12) and c^k t (k = 0..12) for c in {80,FF,81,C0}, t in {00,7F,01}
   static const uint8_t cs[4] = {0x80, 0xFF, 0x81, 0xC0}, ts[3] = {0x00, 0x7F, 0x01};
   for (size_t k = 0; k <= 12; k++) for (int ci = 0; ci < 4; ci++) {
@@ -177,7 +181,7 @@ static bool des_probe(Deserializer &d, const uint8_t *base, size_t size, size_t 
   return true;
 }
 static void ser_case(const std::vector<Field> &fs, int cfg, int vs, int api) {
-  C.states++;
+  C.states++; align_case_begin();
   const bool big0 = cfg != 1;                                    // cfg 2: constructed without an endian argument = big (serializer.h)
   std::vector<uint8_t> want; { bool b = big0; for (auto &f : fs) { if (f.kind == FSW) b = !b; else ref_put(want, f, b); } }
   const size_t total = want.size();
@@ -246,13 +250,16 @@ static Field make_field(int kind, int i, int vs) {
   f.v &= mask;
   if (kind == FBLOB) { size_t bl = vs == 0 ? 3 : vs == 1 ? 0 : vs == 2 ? 1 : 2; for (size_t j = 0; j < bl; j++) f.blob.push_back((uint8_t)(0xA1 + i * 0x10 + j)); }
   return f; }
-void sweep_ser() {
+static void ser_enum(int maxfA, int maxfB);
+void sweep_ser() { ser_enum(thorough() ? 6 : 4, thorough() ? 4 : 3); }
+void align_ser() { ser_enum(2, 2); }      // alignment sweep: raw output buffer / deserializer input / blob sources at the active start offsets
+static void ser_enum(int maxfA, int maxfB) {
   g_ser_huge = getenv("C19_SER_HUGE_APPEND") && atoi(getenv("C19_SER_HUGE_APPEND")) > 0;
   // (A) every sequence of 0..4 items over {u8,u16,u32,u64,blob,SWITCH} (1555) x construction{big,little,no endian argument} x value set{distinct bytes with
   //     high bits, all zero, all ones} x blob length{3,0,1} (by value set) x api{append/fetch, appendPOD/fetchPOD/fetchNoCopy, operator<< >>}   [thorough: 0..6 items]
   // (B) every sequence of 0..3 items over all 12 kinds that contains a signed/float/double item x construction x 5 value sets (also MIN/MAX) x stream API   [thorough: 0..4]
   long nseq = 0;
-  for (int phase = 0; phase < 2; phase++) { const int nk = phase ? NF_ALL : NF_BASE, maxf = phase ? (thorough() ? 4 : 3) : (thorough() ? 6 : 4), nvs = phase ? 5 : 3;
+  for (int phase = 0; phase < 2; phase++) { const int nk = phase ? NF_ALL : NF_BASE, maxf = phase ? maxfB : maxfA, nvs = phase ? 5 : 3;
     for (int nf = 0; nf <= maxf; nf++) { long cnt = 1; for (int i = 0; i < nf; i++) cnt *= nk;
       for (long code = 0; code < cnt && !out_of_time(); code++) {
         bool special = false; { long c = code; for (int i = 0; i < nf; i++) { if (c % nk >= NF_BASE) special = true; c /= nk; } }
